@@ -105,7 +105,7 @@ func ruleC06Stack(c *Ctx) {
 			okDom = false
 		}
 	}
-	core.EachInstr(m.E, func(i ssa.Instruction) {
+	c.eachFamOwn(m.E, func(i ssa.Instruction) {
 		if ld, ok := i.(*ssa.UnOp); ok && ld.Op == token.MUL {
 			if fa, ok := ld.X.(*ssa.FieldAddr); ok && c.fieldName(fa.X.Type(), fa.Field) == "state.stack" {
 				if ld != app.Call.Args[0] && !core.Dominates(push, ld) {
@@ -135,7 +135,7 @@ func ruleC06Stack(c *Ctx) {
 	c.R.Check(byOne && c.mentionsField(sl.X, "state.stack", 3), rule, "pop:by-one", c.pos(pop.st), "the pop is stack = stack[:len(stack)-1]", "the pop does not shrink the evaluation stack by exactly one element")
 	// the pop runs on every exit: it is in a function deferred by E, and the Defer dominates every site and return
 	var deferIns *ssa.Defer
-	core.EachInstr(m.E, func(i ssa.Instruction) {
+	c.eachFamOwn(m.E, func(i ssa.Instruction) {
 		if d, ok := i.(*ssa.Defer); ok {
 			for _, src := range traceSources(d.Call.Value) {
 				if mc, ok := src.(*ssa.MakeClosure); ok && mc.Fn == pop.fn {
@@ -152,7 +152,7 @@ func ruleC06Stack(c *Ctx) {
 		return
 	}
 	okDefer := true
-	core.EachInstr(m.E, func(i ssa.Instruction) {
+	c.eachFamOwn(m.E, func(i ssa.Instruction) {
 		if _, ok := i.(*ssa.Return); ok && i.Block() != m.E.Recover {
 			if !core.Dominates(deferIns, i) {
 				okDefer = false
@@ -356,7 +356,7 @@ func ruleC06Outermost(c *Ctx) {
 	}
 	// the anchor lookup that feeds it
 	var lk *ssa.Lookup
-	core.EachInstr(m.E, func(i ssa.Instruction) {
+	c.eachFamOwn(m.E, func(i ssa.Instruction) {
 		if l, ok := i.(*ssa.Lookup); ok && l.CommaOk {
 			_, steps := c.accessPath(l.X)
 			if len(steps) > 0 && steps[len(steps)-1].Field == "resolvedInfo.anchors" {
@@ -419,7 +419,7 @@ func ruleC06Outermost(c *Ctx) {
 	c.R.Check(forward, rule, "search:from-outermost", c.pos(lk), "the search visits the stack from index 0 upwards (outermost scope first)", "the dynamic-scope search does not start at the outermost stack entry and move inwards: the innermost matching resource would win")
 	// the hit requires ok && dynamic, and leaves the loop
 	var hit ssa.Instruction
-	core.EachInstr(m.E, func(i ssa.Instruction) {
+	c.eachFamOwn(m.E, func(i ssa.Instruction) {
 		switch x := i.(type) {
 		case *ssa.Field:
 			if c.fieldName(x.X.Type(), x.Field) == "anchorInfo.schema" {
@@ -473,7 +473,7 @@ func ruleC06Fallback(c *Ctx) {
 	// the failure exit of the dynamic branch: an error return in the evaluator guarded by dynamicRefAnchor != ""
 	// must also be guarded by the absence of a lexical fallback
 	n := 0
-	core.EachInstr(m.E, func(i ssa.Instruction) {
+	c.eachFamOwn(m.E, func(i ssa.Instruction) {
 		call, ok := i.(*ssa.Call)
 		if !ok || core.CalleeKey(&call.Call) != "fmt.Errorf" {
 			return
